@@ -136,7 +136,8 @@ def check_property(prop: str, tier: str, seed: int) -> int:
         n_canary = len(set(r.canaries_failed))
         real_fail = [f for f in r.failures if not f.canary]
         # proof units = verified + errors, minus canaries
-        units_total = r.verified + r.errors - n_canary
+        n_probe_failed = len(set(f.function for f in real_fail if (f.function or "").startswith("finding_")))
+        units_total = r.verified + r.errors - n_canary - n_probe_failed
         failed_fns = set((f.function or "?") for f in real_fail)
         obligations += max(units_total, 0)
         discharged += max(r.verified, 0)
